@@ -4,8 +4,7 @@
  * Oracle = LZHUF Decode: symbol < 256 is a literal; otherwise  j = c - 255 + THRESHOLD(2)  bytes (3..60) are copied
  * from  i = (r - DecodePosition() - 1) & 4095,  byte by byte through the ring (so a copy may read what it has just
  * written); every output byte is also stored at r, r = (r + 1) & 4095.
- * Instances: MAXCOUNT=12 with a fully symbolic write position; MAXCOUNT=60 with POS0 = concrete write position
- * (0: source wraps backwards over the seam; 4090: destination crosses the seam; 2047: no wrap).
+ * MAXCOUNT bounds the copy length of an instance (the cost grows steeply with the number of symbolic ring writes).
  * harness_init: the ring starts as 4096 spaces (lhasa's write position 0; the window is addressed relatively). */
 #ifndef MAXCOUNT
 #define MAXCOUNT 60
@@ -57,14 +56,7 @@ void harness(void)
 	ASSUME(code < 256 || code - 256u + 3u <= MAXCOUNT);
 #endif
 	dec = d0;
-#ifdef POS0
-	/* long copies: the write position is a concrete value per instance (the 60 ring writes then have concrete
-	 * indices); the source distance, the length and the window content stay symbolic */
-	ASSUME(pos0 == POS0);
-	dec.ringbuf_pos = POS0;
-#else
 	dec.ringbuf_pos = pos0;
-#endif
 	code_ok = !(codefail & 1); code_val = code;
 	off_ok = !(offfail & 1); off_val = dist;
 
